@@ -12,14 +12,15 @@ COQ = dict(imports=["Model.Heads", "Model.Stamp", "Spec.C05"], in_ty="c05_any", 
 THEOREMS = ["C05_decider_sound", "C05_single_target", "C05_base", "C05_purge", "C05_multi_refuted", "C05_multi_partial",
             "C05_multi_partial_class", "C05_any_decider_sound", "C05_e2e_single", "C05_e2e_base", "C05_e2e_purge_any_table",
             "C05_label_head_refuted", "C05_label_base", "C05_label_head_partial",
-            "C05_multi_partial_general", "C05_multi_down_refuted"]
+            "C05_multi_partial_general", "C05_multi_down_refuted", "C05_partial_single", "C05_resolve_partial_spec",
+            "C05_multi_db_pointwise", "C05_multi_db_single", "C05_multi_db_base"]
 TRUSTED = [
     "SQLite + SQLAlchemy execute the three bookkeeping statements as the list model says; matched-row counts are observed",
     "the revision graph is given to the model already loaded; `heads` is given as the observed order of RevisionMap._real_heads "
     "(the model checks that it is a permutation of the real heads); rows are given in the order SELECT returns them",
-    "targets are full revision ids, `base`, `heads`, and (end-to-end cases) <label>@head / <label>@base, whose resolution is part of "
-    "the model (resolve_label: the revision declaring the label, the heads by down_revision sharing lineage with it); partial ids "
-    "and relative targets are not modelled",
+    "targets are full revision ids, `base`, `heads`, and (end-to-end cases) <label>@head / <label>@base and PARTIAL ids, whose "
+    "resolution is part of the model (resolve_label; resolve_partial: exact key, else the unique key longer than 3 characters that "
+    "starts with the string, given the observed keys of _revision_map); relative targets are not modelled",
     "end-to-end cases: env.py (generic template), engine/connection handling and transaction framing (C04) are observed through the "
     "committed rows only; the model says which rows must be committed, not how",
 ]
@@ -40,7 +41,9 @@ RULE = ("quick: EVERY history of <=4 revisions (topological load order, each ear
         "(+12 sampled 4-revision ones; thorough 200) x {every antichain state reached by real `upgrade` commands, a table holding an id "
         "the scripts do not know (with and without a known one)} x targets {base, each id, lab@head and lab@base for every placement of the label "
         "(resolved by the model: Model.Stamp.resolve_label)} x purge; the same on <=3 revisions with the version-table variants of C03 (version_table name, version_table_schema through an "
-        "ATTACHed database file, version_table_pk=False); the committed rows / exception class are compared with Model.Stamp.stamp_cmd. Compared exactly: the StampSteps returned by "
+        "ATTACHed database file, version_table_pk=False); partial ids (unique / ambiguous / too short / unknown prefixes of 8-character ids, single and in pairs) as targets; "
+        "2-3 databases in ONE run (multidb-shaped env.py: configure + run_migrations per engine in one EnvironmentContext), each "
+        "database starting from its own rows incl. stale unknown ones, with and without --purge; the committed rows / exception class are compared with Model.Stamp.stamp_cmd / stamp_partial / stamp_multi. Compared exactly: the StampSteps returned by "
         "_stamp_revs (from_, to_, is_upgrade, branch_move), after every step the rows (multiset) and every statement with its "
         "matched-row count, the exception class. non-trivial = at least one step ran")
 EXHAUSTIVE = {"quick": True, "thorough": True}
@@ -128,6 +131,41 @@ def e2e_cases(n, rnd=None, sample=None, cfg=None, labs=None):
                                "kind": "e2e-n%d" % n}
 
 
+LONG = ["ab12cd00", "ab12ef11", "cd34ab22", "ef56ab33"]          # two ids share the prefix ab12
+PREFIXES = [["ab12"], ["ab12c"], ["ab12e"], ["cd3"], ["cd34ab"], ["ef56ab33"], ["zz99"], ["ab1"],
+            ["ab12c", "cd34"], ["cd34", "ab12e"], ["ab12c", "ab12e"], ["cd34", "ab12"], ["ef56", "cd34"]]
+
+
+def partial_cases(n, rnd=None, sample=None):
+    """partial revision ids (prefixes) as stamp targets, single and several, end to end: ids of 8 characters, unique and
+    ambiguous prefixes, a prefix shorter than 4 characters, no match"""
+    graphs = list(base.topo_graphs(n))
+    if sample is not None:
+        graphs = rnd.sample(graphs, sample)
+    for down, deps in graphs:
+        g = base._g(n, down, deps)
+        known = PREFIXES
+        for st in [{"up": S} for S in base.antichains(n, down, deps)] + [{"raw": [99]}]:
+            for t in known:
+                for purge in (False, True):
+                    yield {"e2e": True, "partial": True, "names": LONG[:n], "g": g, "label_on": -1, "state": st, "target": t,
+                           "purge": purge, "cfg": None, "kind": "e2e-n%d" % n}
+
+
+def multi_cases(n, rnd, count):
+    """2-3 databases in one run, each starting from its own rows (antichains, empty, stale unknown rows)"""
+    graphs = list(base.topo_graphs(n))
+    for _ in range(count):
+        down, deps = rnd.choice(graphs)
+        g = base._g(n, down, deps)
+        acs = list(base.antichains(n, down, deps))
+        k = rnd.choice([2, 2, 3])
+        dbs = [rnd.choice(acs + [[99], [99, 0]]) for _ in range(k)]
+        for t in [["base"]] + [["r%d" % i] for i in range(n)]:
+            for purge in (False, True):
+                yield {"multi": True, "e2e": True, "g": g, "dbs": dbs, "target": t, "purge": purge, "kind": "multi-n%d" % n}
+
+
 def generate(tier, seed):
     rnd = random.Random(seed * 7919 + 5)
     # the design-time witness of the multi-target deviation first (c base; b<-c; a<-c; e<-a; d base depends_on c)
@@ -145,6 +183,14 @@ def generate(tier, seed):
     for n in (1, 2, 3):
         yield from e2e_cases(n)
     yield from e2e_cases(4, rnd, 12 if tier == "quick" else 200)
+    # partial ids as targets
+    for n in (1, 2):
+        yield from partial_cases(n)
+    yield from partial_cases(3, rnd, 5 if tier == "quick" else 27)
+    yield from partial_cases(4, rnd, 2 if tier == "quick" else 40)
+    # several databases in one run
+    for n in (2, 3):
+        yield from multi_cases(n, rnd, 25 if tier == "quick" else 250)
     # version_table name / version_table_schema (ATTACHed database file) / version_table_pk=False, on non-empty tables too
     for vc in base.CFGS[1:]:
         for n in (1, 2):
@@ -198,18 +244,21 @@ def run_e2e(h):
     from alembic.config import Config
     from alembic.script import ScriptDirectory
 
+    names = h.get("names")                       # long revision ids (for partial-id targets); default r<i>
+    nm = (lambda i: names[i] if i < len(names) else "zz%06d" % i) if names else base._name
+    bk = (lambda x: names.index(x) if x in names else int(x[2:])) if names else base._back
     tmp = tempfile.mkdtemp(prefix="avc05")
     try:
         sd = os.path.join(tmp, "scripts")
         os.makedirs(os.path.join(sd, "versions"))
         open(os.path.join(sd, "env.py"), "w").write(ENV_PY)
         open(os.path.join(sd, "script.py.mako"), "w").write("")
-        tup = lambda xs: repr(tuple(base._name(x) for x in xs)) if xs else "None"
+        tup = lambda xs: repr(tuple(nm(x) for x in xs)) if xs else "None"
         for r in h["g"]:
-            open(os.path.join(sd, "versions", "%s.py" % base._name(r["id"])), "w").write(
+            open(os.path.join(sd, "versions", "%s.py" % nm(r["id"])), "w").write(
                 "revision = %r\ndown_revision = %s\ndepends_on = %s\nbranch_labels = %s\n"
                 "def upgrade():\n    pass\ndef downgrade():\n    pass\n" % (
-                    base._name(r["id"]), tup(r["down"]), tup(r["deps"]), "'lab'" if r["id"] == h["label_on"] else "None"))
+                    nm(r["id"]), tup(r["down"]), tup(r["deps"]), "'lab'" if r["id"] == h["label_on"] else "None"))
         url = "sqlite:///" + os.path.join(tmp, "db.sqlite")
         cfg = Config(stdout=io.StringIO())
         cfg.set_main_option("script_location", sd)
@@ -237,7 +286,7 @@ def run_e2e(h):
                 with connect(eng) as c:
                     if not sa.inspect(c).has_table(table, schema=schema):
                         return []
-                    return [base._back(r[0]) for r in c.execute(sa.text("SELECT version_num FROM %s" % qual))]
+                    return [bk(r[0]) for r in c.execute(sa.text("SELECT version_num FROM %s" % qual))]
             finally:
                 eng.dispose()
 
@@ -245,7 +294,7 @@ def run_e2e(h):
         st = h["state"]
         if "up" in st:
             for x in st["up"]:
-                command.upgrade(cfg, base._name(x))
+                command.upgrade(cfg, nm(x))
             if sorted(fresh_rows()) != sorted(st["up"]):
                 raise RuntimeError("could not reach state %r: rows %r" % (st["up"], fresh_rows()))
         else:
@@ -254,7 +303,7 @@ def run_e2e(h):
                 c.execute(sa.text("CREATE TABLE %s (version_num VARCHAR(32) NOT NULL%s)" % (
                     qual, ", PRIMARY KEY (version_num)" if pk else "")))
                 for x in st["raw"]:
-                    c.execute(sa.text("INSERT INTO %s VALUES ('%s')" % (qual, base._name(x))))
+                    c.execute(sa.text("INSERT INTO %s VALUES ('%s')" % (qual, nm(x))))
                 c.commit()
             eng.dispose()
         before = fresh_rows()
@@ -263,13 +312,17 @@ def run_e2e(h):
         script = ScriptDirectory.from_config(cfg)
         m = script.revision_map
         order = [k for k, v in m._revision_map.items() if v is not None and k == v.revision]
-        enc = [{"id": base._back(k), "down": [base._back(x) for x in m._revision_map[k]._versioned_down_revisions],
-                "deps": sorted(base._back(x) for x in m._revision_map[k]._resolved_dependencies),
-                "ndeps": [base._back(x) for x in m._revision_map[k]._normalized_resolved_dependencies],
+        enc = [{"id": bk(k), "down": [bk(x) for x in m._revision_map[k]._versioned_down_revisions],
+                "deps": sorted(bk(x) for x in m._revision_map[k]._resolved_dependencies),
+                "ndeps": [bk(x) for x in m._revision_map[k]._normalized_resolved_dependencies],
                 "labels": [0] if "lab" in m._revision_map[k]._orig_branch_labels else []} for k in order]
         t = h["target"][0]
         label = "@" in t
-        if t == "base":
+        partial = bool(h.get("partial"))
+        if partial:                       # prefixes, resolved by the MODEL (Model.Stamp.resolve_partial) from the map's keys
+            keys = [(k, bk(v.revision)) for k, v in m._revision_map.items() if isinstance(k, str) and v is not None]
+            groups, dests = None, None
+        elif t == "base":
             groups, dests = [[]], None
         elif label:                       # resolved by the MODEL (Model.Stamp.resolve_label); here only for classification
             kids = {r["id"]: [q["id"] for q in enc if r["id"] in q["down"]] for r in enc}
@@ -283,10 +336,10 @@ def run_e2e(h):
                         hd.append(u)
             groups, dests = [[h["label_on"]] + hd], (hd if t.endswith("@head") and len(hd) == 1 else None)
         else:
-            groups, dests = [[base._back(t)]], [base._back(t)]
+            groups, dests = [[bk(t)]], [bk(t)]
 
         try:
-            command.stamp(cfg, t, purge=bool(h["purge"]))
+            command.stamp(cfg, list(h["target"]) if partial else t, purge=bool(h["purge"]))
             after = fresh_rows()
             cout, out = "OE2E (Ok %s)" % cf.nlist(after), {"rows_before": before, "rows_after": after}
         except Exception as e:
@@ -294,7 +347,18 @@ def run_e2e(h):
             cout, out = "OE2E (Err %s)" % cls, {"rows_before": before, "err": cls, "rows_after": fresh_rows()}
     finally:
         shutil.rmtree(tmp, ignore_errors=True)
-    if label:
+    if partial:
+        cin = "CPartial (%s, %s, %s, %s, %s)" % (
+            cf.graph(enc), cf.boolean(h["purge"]), cf.lst("(%s, %d)" % (cf.string(k), v) for k, v in keys),
+            cf.lst(cf.string(x) for x in h["target"]), cf.nlist(before))
+        # reference resolution, for classification only
+        res = []
+        for x in h["target"]:
+            ms = [v for k, v in keys if k == x] or [v for k, v in keys if len(k) > 3 and k.startswith(x)]
+            res.append(ms[0] if len(ms) == 1 else None)
+        dests = res if None not in res else None
+        groups = [[d] for d in dests] if dests else [[]]
+    elif label:
         cin = "CLabel (%s, %s, %s 0, %s)" % (cf.graph(enc), cf.boolean(h["purge"]), "LHead" if t.endswith("@head") else "LBase",
                                             cf.nlist(before))
     else:
@@ -306,13 +370,120 @@ def run_e2e(h):
     start = [] if h["purge"] else before
     label_only = [x for x in start if dests and len(groups[0]) > 1 and rel(x, groups[0][0]) and not rel(x, dests[0])]
     out.update({"kind": "e2e", "groups": groups, "dests": dests, "label_only_rows": label_only})
+    if partial and dests:
+        out.update({"targets": dests, "related_targets": [x for x in dests if any(rel(x, y) for y in start)]})
     shape = "%s%s-%s-%s%s%s" % (h["kind"], "-cfg:%s/%s/%s" % (table, schema, "pk" if pk else "nopk") if vc else "",
-                                "up" if "up" in st else "unknown-row", "base" if t == "base" else t if "@" in t else "id",
+                                "up" if "up" in st else "unknown-row", "partial%d%s" % (len(h["target"]), "" if dests else "-unresolved") if partial else "base" if t == "base" else t if "@" in t else "id",
                                 "-purge" if h["purge"] else "", "-" + out["err"] if "err" in out else "")
     return dict(cin=cin, cout=cout, out=out, nontrivial="err" not in out and sorted(before) != sorted(out["rows_after"]), shape=shape)
 
 
+MULTI_ENV_PY = """
+import sqlalchemy as sa
+from sqlalchemy import pool
+from alembic import context
+config = context.config
+# the multidb template's shape: one EnvironmentContext, configure + run_migrations per engine, one transaction each
+engines = {}
+for name, url in config.attributes["dbs"]:
+    engines[name] = rec = {"engine": sa.create_engine(url, poolclass=pool.NullPool)}
+for name, rec in engines.items():
+    rec["connection"] = conn = rec["engine"].connect()
+    rec["transaction"] = conn.begin()
+try:
+    for name, rec in engines.items():
+        context.configure(connection=rec["connection"], upgrade_token="%s_upgrades" % name,
+                          downgrade_token="%s_downgrades" % name, target_metadata=None)
+        context.run_migrations(engine_name=name)
+    for rec in engines.values():
+        rec["transaction"].commit()
+except:
+    for rec in engines.values():
+        rec["transaction"].rollback()
+    raise
+finally:
+    for rec in engines.values():
+        rec["connection"].close()
+"""
+
+
+def run_multi(h):
+    """command.stamp on SEVERAL SQLite files through one env.py that loops over them (multidb shape); every database
+    starts from its own rows; rows of every database read back by fresh connections"""
+    import io
+    import logging
+    import os
+    import shutil
+    import tempfile
+    import warnings
+    warnings.simplefilter("ignore")
+    logging.disable(logging.CRITICAL)
+    import sqlalchemy as sa
+    from alembic import command
+    from alembic.config import Config
+    from alembic.script import ScriptDirectory
+
+    tmp = tempfile.mkdtemp(prefix="avc05m")
+    try:
+        sd = os.path.join(tmp, "scripts")
+        os.makedirs(os.path.join(sd, "versions"))
+        open(os.path.join(sd, "env.py"), "w").write(MULTI_ENV_PY)
+        open(os.path.join(sd, "script.py.mako"), "w").write("")
+        tup = lambda xs: repr(tuple(base._name(x) for x in xs)) if xs else "None"
+        for r in h["g"]:
+            open(os.path.join(sd, "versions", "%s.py" % base._name(r["id"])), "w").write(
+                "revision = %r\ndown_revision = %s\ndepends_on = %s\n"
+                "def upgrade(engine_name):\n    pass\ndef downgrade(engine_name):\n    pass\n" % (
+                    base._name(r["id"]), tup(r["down"]), tup(r["deps"])))
+        urls = [("db%d" % k, "sqlite:///" + os.path.join(tmp, "db%d.sqlite" % k)) for k in range(len(h["dbs"]))]
+        cfg = Config(stdout=io.StringIO())
+        cfg.set_main_option("script_location", sd)
+        cfg.attributes["dbs"] = urls
+
+        def rows_of(url):
+            eng = sa.create_engine(url)
+            try:
+                with eng.connect() as c:
+                    return [base._back(r[0]) for r in c.execute(sa.text("SELECT version_num FROM alembic_version"))]
+            finally:
+                eng.dispose()
+
+        for (name, url), rws in zip(urls, h["dbs"]):
+            eng = sa.create_engine(url)
+            with eng.begin() as c:
+                c.execute(sa.text("CREATE TABLE alembic_version (version_num VARCHAR(32) NOT NULL, "
+                                  "CONSTRAINT alembic_version_pkc PRIMARY KEY (version_num))"))
+                for x in rws:
+                    c.execute(sa.text("INSERT INTO alembic_version VALUES ('%s')" % base._name(x)))
+            eng.dispose()
+        before = [rows_of(u) for _, u in urls]
+        m = ScriptDirectory.from_config(cfg).revision_map
+        order = [k for k, v in m._revision_map.items() if v is not None and k == v.revision]
+        enc = [{"id": base._back(k), "down": [base._back(x) for x in m._revision_map[k]._versioned_down_revisions],
+                "deps": sorted(base._back(x) for x in m._revision_map[k]._resolved_dependencies),
+                "ndeps": [base._back(x) for x in m._revision_map[k]._normalized_resolved_dependencies]} for k in order]
+        t = h["target"][0]
+        groups, dests = ([[]], None) if t == "base" else ([[base._back(t)]], [base._back(t)])
+        try:
+            command.stamp(cfg, t, purge=bool(h["purge"]))
+            after = [rows_of(u) for _, u in urls]
+            cout, out = "OMulti (Ok %s)" % cf.lst(cf.nlist(a) for a in after), {"rows_before": before, "rows_after": after}
+        except Exception as e:
+            cls = base.err_class(e)
+            cout, out = "OMulti (Err %s)" % cls, {"rows_before": before, "err": cls, "rows_after": [rows_of(u) for _, u in urls]}
+    finally:
+        shutil.rmtree(tmp, ignore_errors=True)
+    cin = "CMulti (%s, %s, %s, %s, %s)" % (cf.graph(enc), cf.boolean(h["purge"]), cf.lst(cf.nlist(a) for a in groups),
+                                         "None" if dests is None else "(Some %s)" % cf.nlist(dests), cf.lst(cf.nlist(b) for b in before))
+    out.update({"kind": "multi", "dests": dests})
+    shape = "%s-%ddb-%s%s%s" % (h["kind"], len(before), "base" if t == "base" else "id", "-purge" if h["purge"] else "",
+                                "-" + out["err"] if "err" in out else "")
+    return dict(cin=cin, cout=cout, out=out, nontrivial="err" not in out and before != out["rows_after"], shape=shape)
+
+
 def run_case(h):
+    if h.get("multi"):
+        return run_multi(h)
     if h.get("e2e"):
         return run_e2e(h)
     import warnings
@@ -437,6 +608,20 @@ def canary(human, rec):
     out = rec["out"]
     if classify(human, out) is not None:
         return []                                    # the observed output already fails the decider (known finding)
+    if out.get("kind") == "multi":
+        if "err" in out:
+            return []
+        after = [list(r) for r in out["rows_after"]]
+        enc = lambda rs: "OMulti (Ok %s)" % cf.lst(cf.nlist(a) for a in rs)
+        cans = ["OMulti (Err ECommand)", enc(after[:-1])]                       # exception instead; one database missing
+        last = after[-1]
+        cans.append(enc(after[:-1] + [last + [last[0] if last else 98]]))       # a duplicated / foreign row in the last database
+        if last:
+            cans.append(enc(after[:-1] + [last[1:]]))                           # a row lost in the last database
+        stale = [x for x in out["rows_before"][-1] if x not in last]
+        if stale:
+            cans.append(enc(after[:-1] + [last + [stale[0]]]))                  # the last database not purged / not moved
+        return [c for c in cans if c != rec["cout"]]
     if out.get("kind") == "e2e":
         if "err" in out:
             return []                                # CommandError (unknown row without --purge, label with several heads): nothing claimed
